@@ -42,6 +42,7 @@ type Stats struct {
 	RevisitInLookahead  int
 	DiscardedTokens     int // tokens completed and later backtracked over or dropped by lookahead
 	DiscardedCaptures   int // ... of which <capture> tokens
+	Completed           int // records completed during the attempt (rules and captures; bounds the token index)
 	Lookaheads          int
 	RestoreAfterConsume int // a backtrack point restored the position after input was consumed
 	BoundaryTests       int // a class/range test within +-1 of a bound
@@ -105,6 +106,7 @@ func Run(g *gram.Grammar, entry int, input []rune, budget int) (res Result) {
 }
 
 func (it *interp) complete(n *Node) {
+	it.st.Completed++
 	// every completed record takes part in the furthest-token rule, whether it survives or not
 	if n.B != n.E && (it.errTok == nil || n.E > it.errTok.E) {
 		it.errTok = &Tok{n.Name, n.B, n.E}
